@@ -174,6 +174,27 @@ type vfsFS struct {
 	crashAt int64
 	crashed bool
 	syncs   int64
+	// faultAt > 0: the faultAt-th mutating/data operation from now fails once with faultErr and has
+	// no effect (an injected backend fault, not a crash: nothing else is lost)
+	faultAt  int64
+	faultErr syscall.Errno
+	faultHit bool
+}
+
+// SetFaultAt arms a one-shot failure of the k-th mutating/data operation from now (0 disarms).
+func (f *vfsFS) SetFaultAt(k int64, e syscall.Errno) {
+	f.mu.Lock()
+	defer f.mu.Unlock()
+	f.faultAt, f.faultErr, f.faultHit = k, e, false
+}
+
+// FaultHit reports whether the armed fault was delivered, and disarms it.
+func (f *vfsFS) FaultHit() bool {
+	f.mu.Lock()
+	defer f.mu.Unlock()
+	h := f.faultHit
+	f.faultAt, f.faultHit = 0, false
+	return h
 }
 
 func vfNewFS() *vfsFS {
@@ -317,6 +338,13 @@ func (f *vfsFS) step(op, p string) error {
 		return perr(op, p, syscall.EIO)
 	}
 	f.opCount++
+	if f.faultAt > 0 {
+		f.faultAt--
+		if f.faultAt == 0 {
+			f.faultHit = true
+			return perr(op, p, f.faultErr)
+		}
+	}
 	if f.crashAt > 0 && f.opCount >= f.crashAt {
 		f.crashLocked()
 		return perr(op, p, syscall.EIO)
